@@ -6,7 +6,7 @@ use bio::data_structures::wavelet_matrix::WaveletMatrix;
 use bv::{BitVec, Bits, BitsMut};
 
 pub struct C17;
-const N_DIRECTED: u64 = 40;
+const N_DIRECTED: u64 = 43;
 
 const BUILDS: [&str; 5] = ["fill-false+set", "fill-true+clear", "bit-by-bit-new", "push", "truncated"];
 
@@ -145,6 +145,86 @@ impl C17 {
         }
     }
 
+    /// very long, sparse vector with sampled queries (sizes beyond 2^24 bits: float / narrow-integer size arithmetic)
+    fn huge_case(&self, ctx: &mut Ctx, n: u64, k: usize) {
+        let mut ones: Vec<u64> = vec![0, 7, 8, 255, 256, n / 2, n - 9, n - 8, n - 2, n - 1];
+        let mut p = 65_537u64;
+        while p < n {
+            ones.push(p);
+            p += 65_537 * 3;
+        }
+        ones.sort();
+        ones.dedup();
+        let desc = |w: String| Obj::new().u("n", n).u("k", k as u64).d("one_positions_first", &&ones[..ones.len().min(12)]).u("ones", ones.len() as u64).s("what", &w).done();
+        let mut bits: BitVec<u8> = BitVec::new_fill(false, n);
+        for &o in &ones {
+            bits.set_bit(o, true);
+        }
+        let rs = match guard(|| RankSelect::new(bits, k)) {
+            Ok(r) => r,
+            Err(p) => {
+                ctx.violation(&format!("rank_select:new-panic:{}", panic_site(&p)), desc(p));
+                return;
+            }
+        };
+        let ones_le = |i: u64| ones.partition_point(|&o| o <= i) as u64;
+        let mut qs: Vec<u64> = (0..n).step_by(4099).collect();
+        qs.extend(n - 300..n);
+        for &o in &ones {
+            qs.extend([o.saturating_sub(1), o, (o + 1).min(n - 1)]);
+        }
+        for &i in &qs {
+            let e1 = ones_le(i);
+            let g1 = guard(|| rs.rank_1(i));
+            let g0 = guard(|| rs.rank_0(i));
+            ctx.eval(2);
+            if g1 != Ok(Some(e1)) || g0 != Ok(Some(i + 1 - e1)) {
+                ctx.violation("rank_select:rank-wrong-on-huge-vector", desc(format!("rank_1({}) = {:?} expected {}; rank_0 = {:?} expected {}", i, g1, e1, g0, i + 1 - e1)));
+                return;
+            }
+        }
+        if guard(|| rs.rank_1(n)) != Ok(None) {
+            ctx.violation("rank_select:rank-beyond-end-not-none", desc(format!("rank_1({})", n)));
+        }
+        for j in 0..=(ones.len() as u64 + 1) {
+            let e = if j == 0 { None } else { ones.get(j as usize - 1).copied() };
+            let g = guard(|| rs.select_1(j));
+            ctx.eval(1);
+            if g != Ok(e) {
+                ctx.violation("rank_select:select_1-wrong-on-huge-vector", desc(format!("select_1({}) = {:?} expected {:?}", j, g, e)));
+                return;
+            }
+        }
+        let zeros = n - ones.len() as u64;
+        let mut js: Vec<u64> = (1..=zeros).step_by(40_009).collect();
+        js.extend(zeros.saturating_sub(300)..=zeros + 1);
+        js.push(0);
+        for &j in &js {
+            // position of the j-th zero: fixed point of p = j - 1 + #ones <= p
+            let e = if j == 0 || j > zeros {
+                None
+            } else {
+                let mut p = j - 1;
+                loop {
+                    let np = j - 1 + ones_le(p);
+                    if np == p {
+                        break;
+                    }
+                    p = np;
+                }
+                Some(p)
+            };
+            let g = guard(|| rs.select_0(j));
+            ctx.eval(1);
+            if g != Ok(e) {
+                ctx.violation("rank_select:select_0-wrong-on-huge-vector", desc(format!("select_0({}) = {:?} expected {:?}", j, g, e)));
+                return;
+            }
+        }
+        ctx.shape(true, &("C17", "huge", n, k));
+        ctx.count("huge_bit_vectors", 1);
+    }
+
     fn wm_case(&self, ctx: &mut Ctx, text: &[u8]) {
         let desc = |w: String| Obj::new().b("text", &text[..text.len().min(300)]).u("len", text.len() as u64).s("what", &w).done();
         let wm = match guard(|| WaveletMatrix::new(text)) {
@@ -233,7 +313,7 @@ impl Monitor for C17 {
         "case = one bit vector of length 1..=2200 (quick) / 20000 (thorough), emphasis on 8k+-1 and 32k*{1,2,3}+-1, built five ways (fill false + set, fill true + clear so padding \
          bits of the last byte are set, bit by bit, push, truncated from a longer vector), density classes all-zero / all-one / single one or zero (also in the padded last byte) / 1:64 / \
          63:64 / runs crossing superblocks / half, superblock factor k in 1..=5: rank_1, rank_0, get for every i in [0,n] and select_1, select_0 for every j in [0,n+1] vs prefix \
-         counting on a shadow Vec<bool>, inverse law rank_1(select_1(j)) == j; or one text over {A,C,G,T,N,$} of length 1..=600 / 5000: WaveletMatrix::rank(c,p) for all six symbols and all p. \
+         counting on a shadow Vec<bool>, inverse law rank_1(select_1(j)) == j; three directed sparse vectors of 2^24+1, 2^24+9, 2^24+4097 bits with sampled rank/select queries (stride plus the last 300 positions); or one text over {A,C,G,T,N,$} of length 1..=600 / 5000: WaveletMatrix::rank(c,p) for all six symbols and all p. \
          shape = (length class, n mod 8, superblock boundary class, k, build method, density) / (text length class, #symbols present); non-trivial = length >= 2"
     }
     fn run_case(&mut self, ctx: &mut Ctx, g: u64, rng: &mut Rng) {
@@ -254,6 +334,12 @@ impl Monitor for C17 {
                 let mut zero = vec![true; n];
                 zero[n - 1] = false;
                 self.rs_case(ctx, &zero, 1, k, "single-zero");
+            } else if g >= 40 {
+                if ctx.tiny() {
+                    return;
+                }
+                let (n, k) = [((1u64 << 24) + 1, 1usize), ((1 << 24) + 9, 2), ((1 << 24) + 4097, 5)][(g - 40) as usize];
+                self.huge_case(ctx, n, k);
             } else {
                 let texts: [&[u8]; 10] = [b"$", b"A", b"ACGTN$", b"AAAAAAAA$", b"GATTACAGATTACA$", b"NNNN$NNNN$", b"TTTTTTTTTTTTTTTTTTTTTTTTTTTTTTTTTTTTTTTT$", b"ACGTACGTACGTACGTACGTACGTACGTACGTACGTACGTACGTACGTACGTACGTACGTACGTACGT$", b"$$$$", b"CATCATCAT$GGG$"];
                 self.wm_case(ctx, texts[(g - 30) as usize]);
